@@ -57,6 +57,15 @@ def instances(tier, seed):
                 continue
             out.append({'id': f'combiner:n={n}:hard={int(hard)}:gs={int(gumbel)}:train={int(training)}', 'what': 'combiner', 'n': n, 'hard': hard,
                         'gumbel': gumbel, 'training': training})
+    # the coefficients are sampled once at earlier values, then updated (through .data / in place), then sampled again: the second sample obeys
+    # the same clauses with respect to the NEW raw coefficients
+    for n in ((2, 3) if tier == 'quick' else (2, 3, 4)):
+        for hard, gumbel, training in flags:
+            if (gumbel and training) or (not hard and not training):
+                continue        # Gumbel noise: covered without history; soft eval-mode combiner: the recorded finding, covered without history
+            for hist in ('data', 'nograd'):
+                out.append({'id': f'combiner:n={n}:hard={int(hard)}:gs={int(gumbel)}:train={int(training)}:resampled_after_{hist}', 'what': 'combiner', 'n': n, 'hard': hard,
+                            'gumbel': gumbel, 'training': training, 'hist': hist})
     out.append({'id': 'qtz_disable_sampling', 'what': 'disable'})
     out.append({'id': 'qtz_update_sequence', 'what': 'updates', 'deep': tier != 'quick'})
     out.append({'id': 'mps_model', 'what': 'model'})
@@ -100,12 +109,25 @@ def concrete_combiner(rec):
     from plinio.methods.supernet.nn.combiner import SuperNetCombiner
     torch.manual_seed(rec.get('rng', 0))
     c = SuperNetCombiner(rec['n'], rec['gumbel'], rec['hard'])
-    with torch.no_grad():
-        c.alpha.copy_(torch.tensor([float(Fraction(v)) for v in rec['alpha']]))
     c.softmax_temperature = float(Fraction(rec['temperature']))
     c.train(rec['training'])
+    t = torch.tensor([float(Fraction(v)) for v in rec['alpha']])
+    if rec.get('hist'):
+        with torch.no_grad():
+            c.alpha.copy_(_prior_alpha(rec['n']))
+        c.sample_alpha()
+    if rec.get('hist') == 'data':
+        c.alpha.data.copy_(t)
+    else:
+        with torch.no_grad():
+            c.alpha.copy_(t)
     c.sample_alpha()
     return c.theta_alpha.detach(), c
+
+
+def _prior_alpha(n):
+    """coefficients of the earlier sample: pairwise distinct, largest first"""
+    return torch.tensor([float(n - i) / 2 for i in range(n)])
 
 
 def _expect_onehot(hard, gumbel, training):
@@ -336,22 +358,35 @@ def _run_qtz(res, p, selftest):
 def _run_combiner(res, p, selftest):
     from plinio.methods.supernet.nn.combiner import SuperNetCombiner
     n, hard, gumbel, training = p['n'], p['hard'], p['gumbel'], p['training']
-    c = SuperNetCombiner(n, gumbel, hard)
-    c.train(training)
+    c0 = SuperNetCombiner(n, gumbel, hard)
+    c0.train(training)
+    hist = p.get('hist')
 
     def fn(ex):
+        c = c0
+        if hist:
+            # a combiner of its own per path (built natively, outside the dispatch mode): the history re-binds attributes of the module
+            c = SuperNetCombiner(n, gumbel, hard)
+            c.train(training)
         with SymMode():
             a = SymTensor.fresh('alpha', (n,))
             T = z3.Real('T')
             ex.assume(T >= GAP, T <= 20)
             _assume_gaps(ex, st.to_arr(a))
-            with st.swapped_params([(c, 'alpha', a)]):
+
+            def prefix():
+                c.softmax_temperature = st.SymScalar(T)
+                with torch.no_grad():
+                    c.alpha.copy_(_prior_alpha(n))
+                c.sample_alpha()
+            with (st.written_params([(c, 'alpha', a)], prefix, hist) if hist else st.swapped_params([(c, 'alpha', a)])):
                 c.softmax_temperature = st.SymScalar(T)
                 c.sample_alpha()
                 theta = st.to_arr(c.theta_alpha).copy()
                 best = c.best_layer_index()
                 c.softmax_temperature = 1
-                c.theta_alpha = c.alpha
+                if not hist:
+                    c.theta_alpha = c.alpha
         return a, T, theta, best
     ex = Explorer(timeout_ms=Q)
     k = 0
@@ -364,12 +399,12 @@ def _run_combiner(res, p, selftest):
 
         def mk_rec(m, bad):
             m2 = _grid(ex, A + [T], [bad]) or m
-            return _model_rec(ex, m2, A, T, {'what_kind': 'combiner', 'n': n, 'hard': hard, 'gumbel': gumbel, 'training': training})
-        _check_all(res, ex, obs, p['id'], mk_rec, selftest, f'SuperNetCombiner|hard={int(hard)}|gs={int(gumbel)}|train={int(training)}')
+            return _model_rec(ex, m2, A, T, {'what_kind': 'combiner', 'n': n, 'hard': hard, 'gumbel': gumbel, 'training': training, 'hist': hist})
+        _check_all(res, ex, obs, p['id'], mk_rec, selftest, f'SuperNetCombiner|hard={int(hard)}|gs={int(gumbel)}|train={int(training)}' + (f'|resampled_after_{hist}' if hist else ''))
         if k <= 2 and not (gumbel and training):
             m = _grid(ex, A + [T], [])
             if m is not None:
-                rec = _model_rec(ex, m, A, T, {'what_kind': 'combiner', 'n': n, 'hard': hard, 'gumbel': gumbel, 'training': training})
+                rec = _model_rec(ex, m, A, T, {'what_kind': 'combiner', 'n': n, 'hard': hard, 'gumbel': gumbel, 'training': training, 'hist': hist})
                 th, _c = concrete_combiner(jsonable(rec))
                 res.sample({'kind': 'SuperNetCombiner', 'alpha': rec['alpha'], 'T': rec['temperature'], 'theta(torch)': th.tolist(), 'best': best})
                 if _c.best_layer_index() == best:
